@@ -205,3 +205,10 @@ Definition run_c08_file (args : list sx) : sx :=
   or_bad (match args with
   | [B d] => ret (sx_bytes_list (parse_pattern_file d))
   | _ => None end).
+
+Definition c08_table : list (bytes * (list sx -> sx)) :=
+  [ (bs "c08.trie", run_c08_trie);
+    (bs "c08.accept", run_c08_accept);
+    (bs "c08.checks", run_c08_checks);
+    (bs "c08.args", run_c08_args);
+    (bs "c08.file", run_c08_file) ].
